@@ -1692,7 +1692,8 @@ class PseudoNetCDFFile(PseudoNetCDFSelfReg, object):
                             axis=di, keepdims=True)
                     else:
                         newvals = np.apply_along_axis(dfunc, di, newvals)
-            newvaro = outf.copyVariable(varo, key=vark, withdata=False)
+            newvaro = outf.copyVariable(varo, key=vark, withdata=False,
+                                        dtype=np.asarray(newvals).dtype)
             newvaro[...] = newvals
         if verbose > 0:
             print()
